@@ -33,3 +33,45 @@ PROPS["C06"] = dict(
     assumptions=["stack exhaustion by nesting far beyond 1 MiB of input is outside the model", "memory exhaustion below the 512 MiB bulk limit is outside the model"],
     timeout=900,
 )
+
+HOOK = "verif hook H1 (VerifServeConn): the real connection loop served synchronously over a scripted in-memory net.Conn"
+DOUBLE = "recording handler double answering from the case's script; tracer double on go-tracing's own span context"
+SERVE_TB = [KERNEL, TIE, HOOK, DOUBLE,
+            "strconv.ParseFloat is a parameter of the model (float table travels on the case line); strings.ToUpper outside ASCII, time.Now, regexp are not modelled",
+            "Go map iteration order: call groups of MSET/MSETNX/HMSET are compared as sets"]
+SERVE_AS = ["transport contract of C02", "command and option names in generated cases are ASCII",
+            "EXPIRE ttl within +-10^8 s and EXPIREAT timestamps away from the current time so the double can tell them apart"]
+
+PROPS["C03"] = dict(canon="serve", timeout=1200,
+    rule="pipelines of 1..12 requests over every registered command (valid, ill-formed by C10's classes, unknown, surplus arguments, QUIT) "
+         "x handler scripts (every message type, errors) x chunkings (whole, per request, per byte, two random partitions); plus every ZADD flag combination; "
+         "observables: ordered trace of handler calls and writes, replies written at each blocking point; non-trivial = every case; distinct = distinct case line",
+    trusted_base=SERVE_TB, assumptions=SERVE_AS + ["handler results that make the framework dereference nil (nil message without error) end the connection; they are outside C03's domain"])
+PROPS["C04"] = dict(canon="serve", timeout=1200,
+    rule="client streams made of RESP values of every type, command names/arguments with CRLF + forged +OK/:1/$-1 frames, null/nested/empty command arrays, "
+         "with and without a command handler x handler results of every message type incl. nil message, nil array, nil element, errors with CRLF, message+error; "
+         "oracle: an independent strict RESP2 reader must split everything written into complete canonical frames; non-trivial = every case",
+    trusted_base=SERVE_TB, assumptions=SERVE_AS)
+PROPS["C05"] = dict(canon="serve", timeout=1200,
+    rule="for each of the 38 single-call commands: well-formed requests from an independent grammar (all option subsets and orders, binary strings, boundary ints/floats, "
+         "1..k list elements, duplicate keys, random letter case of command and option names) with the expected handler call computed by the grammar, plus unknown commands; "
+         "non-trivial = every case; distinct = distinct case line",
+    trusted_base=SERVE_TB, assumptions=SERVE_AS)
+PROPS["C07"] = dict(canon="serve", timeout=1200,
+    rule="hostile streams: empty/null/nested command arrays, non-array values, mutated valid requests (C06 mutators), every command with boundary arguments, "
+         "disconnect at arbitrary points x wild handler results (nil message, nil array, nil elements, odd-length arrays, errors); "
+         "oracle: no panic escapes the connection loop, the loop returns, the registry is empty afterwards",
+    trusted_base=SERVE_TB, assumptions=SERVE_AS + ["process-level effects (OS limits, fatal runtime errors that are not panics) are outside the model"])
+PROPS["C10"] = dict(canon="serve", timeout=1200,
+    rule="systematic enumeration over the independent grammar: each required position omitted, each value position replaced by a null bulk, each numeric position replaced by "
+         "non-numeric/overflowing/fractional tokens, each pair list cut to a dangling half, every SET exclusivity conflict and non-positive expiry; each followed by PING; "
+         "oracle: zero handler calls, an error reply, then +PONG; non-trivial = every case",
+    trusted_base=SERVE_TB, assumptions=SERVE_AS)
+PROPS["C11"] = dict(canon="serve", timeout=1200,
+    rule="every byte offset of generated pipelines of 1..4 valid requests as the end of the stream (whole or randomly segmented); "
+         "oracle: replies = requests received completely, registry empty after return; non-trivial = every case",
+    trusted_base=SERVE_TB, assumptions=SERVE_AS)
+PROPS["C20"] = dict(canon="serve", timeout=1200,
+    rule="pipelines of C03 (valid, ill-formed, unknown, QUIT, composed commands) with a recording tracer, authorized and unauthorized, end of stream at the end, at a request boundary "
+         "and at a sampled inner offset; oracle: every span started once and finished once, children inside parents, one root per request; non-trivial = every case",
+    trusted_base=SERVE_TB, assumptions=SERVE_AS + ["runs that end in a recovered panic leave spans open; they are C07's subject"])
